@@ -454,6 +454,68 @@ def r13e(rep, F):
             'the component id does not advance exactly once per started component')
 
 
+class CfgInterp(fd.Interp):
+    """GridN configuration functions over a field valuation"""
+
+    def __init__(self, fn, st):
+        super().__init__(fn)
+        self.st = st
+
+    def load(self, n, env):
+        if n['k'] == 'MemberExpr' and n.get('name') in self.st:
+            return self.st[n['name']]
+        raise AnalysisBroken('R13f: configuration code reads %s' % self.fn.fp(n['id']))
+
+    def store(self, lhs, v, env):
+        if lhs is not None and lhs['k'] == 'MemberExpr' and lhs.get('name') in self.st:
+            self.st[lhs['name']] = v
+            return
+        raise AnalysisBroken('R13f: configuration code writes %s' % (self.fn.fp(lhs['id']) if lhs else '?'))
+
+    def call(self, n, env):
+        c = n.get('callee') or ''
+        if c.endswith('::empty'):
+            return True
+        if '__assert_fail' in c:
+            return None
+        raise AnalysisBroken('R13f: configuration code calls ' + c)
+
+
+def r13f(rep, F):
+    rep.rule('R13f', 'a configured interior limit is kept: GridN::setDimension and setInteriorCellNeighborLimit are interpreted over the '
+                     'fields (dimension_, maxNeighbors_, interiorCellNeighborsLimit_, overrideCellNeighborsLimit_) for every history of '
+                     'up to three calls with dimensions 1..3 and limits 1..6 from every default start (dimension 0..3, limit = 2 * '
+                     'dimension, no override): afterwards the limit is the last configured one if any was configured, else 2 * dimension, '
+                     'and maxNeighbors_ = 2 * dimension_')
+    sd = [f for f in F.by_name.get('ompl::GridN::setDimension', []) if f.body]
+    sl = [f for f in F.by_name.get('ompl::GridN::setInteriorCellNeighborLimit', []) if f.body]
+    if not sd or not sl:
+        raise AnalysisBroken('R13f: GridN::setDimension / setInteriorCellNeighborLimit not instantiated')
+    sd, sl = sd[0], sl[0]
+    ops = [('dim', d) for d in (1, 2, 3)] + [('lim', L) for L in (1, 2, 3, 4, 5, 6)]
+    bad = None
+    runs = 0
+    for d0 in (0, 1, 2, 3):
+        for k in (1, 2, 3):
+            for hist in itertools.product(ops, repeat=k):
+                st = {'dimension_': d0, 'maxNeighbors_': 2 * d0, 'interiorCellNeighborsLimit_': 2 * d0, 'overrideCellNeighborsLimit_': False}
+                configured = None
+                for (op, v) in hist:
+                    f = sd if op == 'dim' else sl
+                    it = CfgInterp(f, st)
+                    it.run({'%s#%d' % (f.params[0]['name'], f.params[0]['did']): v})
+                    if op == 'lim':
+                        configured = v
+                runs += 1
+                want = configured if configured is not None else 2 * st['dimension_']
+                if bad is None and (st['interiorCellNeighborsLimit_'] != want or st['maxNeighbors_'] != 2 * st['dimension_']):
+                    bad = 'from dimension %d, after %s the interior limit is %s (expected %s) and maxNeighbors_ is %s' % (
+                        d0, ', '.join('setDimension(%d)' % v if o == 'dim' else 'setInteriorCellNeighborLimit(%d)' % v for o, v in hist),
+                        st['interiorCellNeighborsLimit_'], want, st['maxNeighbors_'])
+    rep.add('R13f', 'ompl::GridN::setInteriorCellNeighborLimit', 'configured-limit-kept', bad is None, sl.loc,
+            bad or 'limit = last configured value, else 2 * dimension, on %d abstract histories' % runs)
+
+
 def run(rep):
     F = facts.load_units(INST)
     rep.units.update(INST)
@@ -463,3 +525,4 @@ def run(rep):
     r13c(rep, F)
     r13d(rep, F)
     r13e(rep, F)
+    r13f(rep, F)
